@@ -343,7 +343,9 @@ func (i *iteratorRole) IsEnabled() bool {
 	if i == nil || i.template == nil {
 		return false
 	}
-	return i.template.IsEnabled()
+	// The template's enabled expression is evaluated by each generated role,
+	// the iterator itself is enabled if any of them survived.
+	return len(i.Roles) > 0
 }
 
 func (i *iteratorRole) setParent(role Updatable) {
